@@ -276,11 +276,12 @@ def build_alias(rng, w, plans, calls_per_action, noise=True):
 # precondition literal, a nested group, a numeric condition, an add / delete effect, a numeric effect, a literal of a 'when' branch, rename
 # parameters with change_signature -- and back), ground c again (a fresh Operator, or the SAME Operator object grounded again), ground
 # other calls in between (seen before / never seen).  Every report is judged against the schema AS IT IS AT THAT MOMENT: the op re-dumps
-# the domain's actions with the library's exporter after every edit, and the model and the spec ground that text.
+# the live Action objects after every edit (ops_c20.dump_action: the harness's own walk of their operands -- NOT the library's exporter,
+# which prints the numeric conditions of a connective through a set and would hide multiplicities), and the model and the spec ground that text.
 def has_empty_forall(t):
     if isinstance(t, list):
         if t and t[0] == "forall" and len(t) == 3 and isinstance(t[2], list) and len(t[2]) <= 1:
-            return True           # exported as nothing (finding D83 of C08): not the subject here
+            return True           # a quantified condition with an empty body: left to the ordinary stream
         return any(has_empty_forall(x) for x in t)
     return False
 
@@ -674,7 +675,7 @@ def run(args):
         for _ in range({"quick": 50, "thorough": 300}[args.tier]):
             aw, plans = gen_alias_world(rng)
             worlds.append(build_alias(rng, aw, plans, calls))
-        seqs = [build_sequence(rng, rng.randint(3, 6)) for _ in range({"quick": 36, "thorough": 240}[args.tier])]
+        seqs = [build_sequence(rng, rng.randint(3, 6)) for _ in range({"quick": 36, "thorough": 160}[args.tier])]
     hashseeds = [0] if args.tier == "quick" else [0, 1, 2]
     stats = {"worlds": 0, "calls": 0, "calls_with_repeated_object": 0, "calls_with_constant_argument": 0,
              "calls_with_subtype_argument": 0, "calls_binding_one_object_to_twin_terms": 0,
@@ -770,12 +771,12 @@ def run(args):
                    "(Model.GroundSets: the library's per-connective / per-effect-group sets applied to the report), with the spec between its lower bound "
                    "(Spec.SubstSet: members of one connective / effect group with the same TYPED form count once) and one item per schema occurrence; numeric "
                    "conditions and effects exactly; (in)equality pairs as sets; the iteration order of the sets is not compared.  "
-                   "Wave 3: PROCESS-LEVEL SEQUENCES (36 quick / 240 thorough worlds of the ordinary and the alias stream): ONE parsed Domain whose Action objects are "
+                   "Wave 3: PROCESS-LEVEL SEQUENCES (36 quick / 160 thorough worlds of the ordinary and the alias stream): ONE parsed Domain whose Action objects are "
                    "reused and EDITED IN PLACE through the library's API between groundings -- add / remove a precondition literal, a nested or/and group, a numeric "
                    "condition, an add / delete effect, a numeric effect, a literal of a 'when' branch (antecedent / result), change_signature to fresh names and back; after "
                    "each edit the call grounded before is grounded again (a fresh Operator, and in half of the rounds the SAME Operator object grounded again), another seen call, "
                    "sometimes a call never seen, sometimes a call of another action; every report is judged against the schema AS IT IS AT THAT MOMENT: the op re-dumps the "
-                   "domain's actions with DomainExporter.write_action after every edit and the model and the spec ground that text (counted: sequence_*; "
+                   "live Action objects after every edit (its own walk of their operands, not the library's exporter) and the model and the spec ground that text (counted: sequence_*; "
                    "sequence_regrounded_calls_whose_report_changed = how often the edit mattered).  A verdict is non-trivial "
                    "when the call has arguments and the compared collection is non-empty; distinct by input hash.")
     cov["samples"] = [{"domain": (c["input"]["world"]["domain_text"] or str(c["input"]["world"]["fixture"]))[:400],
